@@ -334,7 +334,7 @@ def main():
     def b(x):
         return "true" if x else "false"
 
-    L = ["import XModel.RefsTable", "open Tables RefsTable", "namespace Generated", "", "def tbl : Full := {",
+    L = ["import XModel.RefsLift", "open Tables RefsTable", "namespace Generated", "", "def tbl : Full := {",
          "  bin := {",
          "    classes := [" + ", ".join("⟨%s, .%s, %s, %s⟩" % (lean_str(c), p, b(s), b(g)) for c, p, s, g in classes) + "],",
          "    dunders := [" + ", ".join("⟨%s, %s, .%s⟩" % (lean_str(d), lean_str(c), s) for d, c, s in dunders) + "] },",
@@ -354,13 +354,28 @@ def main():
                 "/-- hence, for the working tree's tables: the homomorphism of C04 on the binary fragment -/",
                 "theorem c04_lift {V : Type} (ops : PyOps V) (term : Term V) (hw : WFTerm term) :",
                 "    ∃ node, build tbl.bin term = some node ∧ evalNode tbl.bin ops node = evalDirect ops term :=",
-                "  build_eval tbl.bin (valid_bin tbl valid_ops) ops term hw"],
+                "  build_eval tbl.bin (valid_bin tbl valid_ops) ops term hw",
+                "",
+                "/-- second per-run obligation: one class is one primitive (no two unary dunders share a class with different",
+                "    primitives, the class of an in-place expression case is the guarded class of its primitive) -/",
+                "theorem coherent : tbl.Coherent = true := by decide",
+                "",
+                "/-- hence the homomorphism on the FULL term language: all binary and reflected dunders, unary operators, builtins",
+                "    with their parameters, in-place operators in the value and in the expression case -/",
+                "theorem c04_lift_full {V : Type} (ops : RefsLift.PyOps2 V) (t : RefsLift.Term2 V) (hw : RefsLift.WF2 t) :",
+                "    ∃ node, RefsLift.build2 tbl t = some node ∧ RefsLift.evalNode2 tbl ops node = RefsLift.evalDirect2 ops t :=",
+                "  RefsLift.build_eval2 tbl valid_ops coherent ops t hw"],
         "C05": ["/-- the per-run obligation of Tie A for C05 -/",
                 "theorem valid_deps : tbl.ValidDeps = true := by decide",
                 "",
                 "/-- hence every tree over the listed (class, slot) pairs reports exactly the refs inside it -/",
                 "theorem c05_lift (n : DNode) (h : wellSlotted tbl.deps n = true) : depsOf tbl.deps n = leafs n :=",
-                "  deps_exact tbl.deps n h"],
+                "  deps_exact tbl.deps n h",
+                "",
+                "/-- and the value of such a tree depends only on the reported locations -/",
+                "theorem c05_semantic {V : Type} (I : RefsLift.DSem V) (n : DNode) (hw : wellSlotted tbl.deps n = true)",
+                "    (e1 e2 : Nat → V) (h : ∀ id ∈ depsOf tbl.deps n, e1 id = e2 id) : RefsLift.evalD I e1 n = RefsLift.evalD I e2 n :=",
+                "  RefsLift.value_depends_only_on_reported tbl.deps I n hw e1 e2 h"],
         "C12": ["/-- the per-run obligation of Tie A for C12 -/",
                 "theorem valid_reduce : tbl.ValidReduce = true := by decide",
                 "",
